@@ -624,10 +624,36 @@ class Facts:
         self.doc = doc
         from . import inline
         raw_bodies, self.inlined = inline.apply(doc)
+        # a private helper that was inlined at EVERY call site is dead code for the rules (its statements now live in its callers):
+        # who-may-write / who-may-call rules must not see them a second time under the helper's name
+        self.absorbed = set()
+        cand = set(c for (_, c) in self.inlined if doc['bodies'][c].get('vis') != 'pub')
+        if cand:
+            still = set()
+            for k, b in raw_bodies.items():
+                for blk in b['blocks']:
+                    t = blk['term']
+                    if t and t['k'] == 'call':
+                        for key in ('resolved', 'callee'):
+                            if t.get(key) in cand and k != t.get(key):
+                                still.add(t.get(key))
+                    for st in blk['stmts']:
+                        # a helper whose address is taken (fn item passed as a value) stays
+                        op = st.get('rv', {}).get('op') if st.get('k') == 'assign' else None
+                        if isinstance(op, dict) and isinstance(op.get('const'), dict) and op['const'].get('fn') in cand:
+                            still.add(op['const']['fn'])
+            # a call from another absorbed helper does not keep a helper alive
+            live_callers = {}
+            for c in cand - still:
+                self.absorbed.add(c)
+            absorbed_raw = {k: v for k, v in raw_bodies.items() if k in self.absorbed}
+            raw_bodies = {k: v for k, v in raw_bodies.items() if k not in self.absorbed}
         from . import thread
         fresh = set(k for k, v in raw_bodies.items() if v is not doc['bodies'].get(k))
         self.threaded = thread.apply(raw_bodies, fresh)
         self.bodies = {k: Body(k, v, self) for k, v in raw_bodies.items()}
+        # still addressable by name (a rule may want to look INTO a helper), but not enumerated
+        self.absorbed_bodies = {k: Body(k, v, self) for k, v in (absorbed_raw if self.absorbed else {}).items()}
         self.adts = doc['adts']
         self.impls = doc['impls']
         self.consts = doc['consts']
@@ -641,7 +667,7 @@ class Facts:
     def find(self, adt=None, name=None, trait=None, kind=None):
         """bodies (non-closure) by impl self ADT suffix / item name / implemented trait suffix"""
         out = []
-        for b in self.bodies.values():
+        for b in list(self.bodies.values()) + list(self.absorbed_bodies.values()):
             if b.kind == 'closure':
                 continue
             if name is not None and b.fn_name != name:
@@ -1621,7 +1647,90 @@ def guarded(body, effect_points, accept, starts=None, extra_avoid=()):
                     cut.add((b, lab))
     reached = body.reach(starts or [(0, 0)], cut_edges=cut, avoid=extra_avoid)
     bad = [p for p in effect_points if p in reached]
+    if bad and not extra_avoid and len(starts or [0]) == 1:
+        # B1' — path-sensitive second look: a path that crosses no accepted edge only counts if its own literals are not contradictory
+        # (`while a > b && !q {..}  if a <= b {return}  EFFECT`: the effect is reached with q asserted, although one loop exit bypasses q)
+        still = []
+        try:
+            for p in bad:
+                for (edges, blocks, end) in enumerate_paths(body, (starts or [(0, 0)])[0], stops=[p], cut_edges=cut, max_paths=3000):
+                    if end == p and consistent(path_atoms_fresh(body, edges, blocks)):
+                        still.append(p)
+                        break
+            bad = still
+        except PathLimit:
+            pass
     return (not bad), cut, bad
+
+
+def _fields_written_by(body, depth=2):
+    """(field name, owner ADT) pairs written by `body`, its closures and (to `depth`) the crate-local functions it calls"""
+    cache = body.facts.__dict__.setdefault('_fw_cache', {})
+    key = (body.name, depth)
+    if key in cache:
+        return cache[key]
+    cache[key] = set()
+    out = set()
+    for u in body.facts.unit(body):
+        for bb in u.live_blocks():
+            for s in u.stmts(bb):
+                if s['k'] == 'assign':
+                    for e in s['place']['p']:
+                        if isinstance(e, dict) and 'f' in e:
+                            out.add((e['name'], e.get('adt')))
+            t = u.term(bb)
+            if t and t['k'] == 'call':
+                for e in t['dest']['p']:
+                    if isinstance(e, dict) and 'f' in e:
+                        out.add((e['name'], e.get('adt')))
+                cb = body.facts.bodies.get(t.get('callee') or '')
+                if cb is not None and depth > 0:
+                    out |= _fields_written_by(cb, depth - 1)
+    cache[key] = out
+    return out
+
+
+def path_atoms_fresh(body, edges, blocks):
+    """literal atoms of ONE path that are still current at its end: an atom is dropped when a later block of the path re-assigns a
+    local variable it mentions, writes a field it mentions (directly or in a crate-local callee), or hands a mutable borrow to a call"""
+    atoms = []      # (atom, vars mentioned, fields mentioned)
+    for k, b in enumerate(blocks):
+        # effects of block b come before the edge that leaves it
+        if atoms:
+            killed_l, killed_f = set(), set()
+            for s in body.stmts(b):
+                if s['k'] == 'assign':
+                    pl = s['place']
+                    fs = [e for e in pl['p'] if isinstance(e, dict) and 'f' in e]
+                    if fs:
+                        killed_f.add((fs[-1]['name'], fs[-1].get('adt')))
+                    else:
+                        killed_l.add(pl['l'])
+                    if s['rv'].get('k') == 'ref' and s['rv'].get('mut') and not s['rv']['place']['p']:
+                        killed_l.add(s['rv']['place']['l'])
+            t = body.term(b)
+            if t and t['k'] == 'call':
+                if not t['dest']['p']:
+                    killed_l.add(t['dest']['l'])
+                cb = body.facts.bodies.get(t.get('callee') or '')
+                if cb is not None:
+                    killed_f |= _fields_written_by(cb)
+            if killed_l or killed_f:
+                atoms = [(a, vs, fs) for (a, vs, fs) in atoms if not (vs & killed_l) and not (fs & killed_f)]
+        if k < len(edges):
+            lit = edge_literal(body, edges[k][0], edges[k][1])
+            if lit is not None:
+                for a in lit_atoms(lit):
+                    vs, fs = set(), set()
+                    for x in a[1:]:
+                        for y in walk(x):
+                            if isinstance(y, tuple) and y:
+                                if y[0] == 'var' and len(y) > 2:
+                                    vs.add(y[2])
+                                elif y[0] == 'field' and len(y) == 4:
+                                    fs.add((y[2], y[3]))
+                    atoms.append((a, vs, fs))
+    return [a for (a, vs, fs) in atoms]
 
 
 # ---------------------------------------------------------------------------------------------
